@@ -170,7 +170,40 @@ ObjHashCases == {[fam |-> "objhash", n |-> 8 * b + u, class |-> IF b \in HashHas
 AttrCases == {[fam |-> "attr", n |-> ((((nm * 2 + sp) * 4 + pre) * 4 + a) * 2 + syn) * 9 + pos, class |-> 2, held |-> -1] :
                 nm \in 0..(NAttrName - 1), sp \in 0..1, pre \in 0..2, a \in 0..3, syn \in 0..1, pos \in 0..8}
 
+(* UTF-8 decoding boundaries (utf.c:utf8dec, expr.c:decodechar / stringconcat, utf.c:utf8enc / utf16enc): raw bytes  *)
+(* inside a literal are decoded to a code point and, for 8- and 16-bit strings, encoded again; the encoders have no    *)
+(* case for a value the decoder should never deliver.  U8Enc(cp, l) is the l-byte UTF-8 form of cp (shortest form     *)
+(* when l = U8Min(cp), an overlong form when l is larger, a value past U+10FFFF when cp is).  The byte sequences are   *)
+(* derived from the edges of the decoder's case analysis: first and last code point of every encoded length, both     *)
+(* sides of the surrogate range, last code point / first value past the code space / last value of the F4 lead / last  *)
+(* value of the 4-byte form, every overlong form of those (and of the characters that end a literal), every proper     *)
+(* prefix (truncation), a continuation byte replaced by an ASCII or a lead byte, stray continuation bytes, the lead     *)
+(* bytes F5..FF alone and followed by continuation bytes, the 5- and 6-byte forms.  Each sequence x kind {character    *)
+(* constant, string} x prefix {none L u8 u U} x context {initializer, expression in a function, static_assert,         *)
+(* adjacent literal with another prefix (strings only)}.  What is accepted is C14's business: the class is open, the   *)
+(* run must end with status 0 or 1 on both builds.  n = (kind * 5 + prefix) * 4 + context; the bytes travel in the     *)
+(* case record.                                                                                                       *)
+U8Enc(cp, l) ==
+  IF l = 1 THEN <<cp>>
+  ELSE IF l = 2 THEN <<192 + cp \div 64, 128 + (cp % 64)>>
+  ELSE IF l = 3 THEN <<224 + cp \div 4096, 128 + ((cp \div 64) % 64), 128 + (cp % 64)>>
+  ELSE <<240 + cp \div 262144, 128 + ((cp \div 4096) % 64), 128 + ((cp \div 64) % 64), 128 + (cp % 64)>>
+U8Min(cp) == IF cp < 128 THEN 1 ELSE IF cp < 2048 THEN 2 ELSE IF cp < 65536 THEN 3 ELSE 4
+U8Points == {1, 65, 127, 128, 2047, 2048, 55295, 55296, 57343, 57344, 65535, 65536, 1114111, 1114112, 1310719, 2097151}
+U8EndsLiteral == {0, 10, 34, 39, 92}      \* NUL, newline, ", ', \ : only their overlong forms are put inside a literal
+U8Shortest == {U8Enc(cp, U8Min(cp)) : cp \in U8Points}
+U8Overlong == {U8Enc(x[1], x[2]) : x \in {y \in (U8Points \cup U8EndsLiteral) \X (2..4) : y[2] > U8Min(y[1])}}
+U8Whole == U8Shortest \cup U8Overlong
+U8Trunc == UNION {{SubSeq(s, 1, j) : j \in 1..(Len(s) - 1)} : s \in U8Whole}
+U8BadCont == UNION {{SubSeq(s, 1, j) \o <<b>> \o SubSeq(s, j + 2, Len(s)) : j \in 1..(Len(s) - 1), b \in {65, 192}} : s \in U8Shortest}
+U8Stray == {<<128>>, <<191>>, <<128, 191>>, <<65, 128>>}
+U8BadLead == {<<b>> : b \in 245..255} \cup {<<b, 128, 128, 128>> : b \in 245..255} \cup {<<248, 136, 128, 128, 128>>, <<252, 132, 128, 128, 128, 128>>}
+U8Seqs == U8Whole \cup U8Trunc \cup U8BadCont \cup U8Stray \cup U8BadLead
+Utf8Cases == {[fam |-> "utf8", n |-> (k * 5 + p) * 4 + c, class |-> 2, held |-> -1, bytes |-> s] :
+                s \in U8Seqs, k \in 0..1, p \in 0..4, c \in 0..3}
+
 Cases ==
+       {c \in Utf8Cases : c.n \div 20 = 0 => c.n % 4 # 3} \cup
        {c \in AttrCases : (c.n \div 9) % 2 = 1 => ((c.n \div 72) % 4 = 0)} \cup ObjHashCases \cup EscCases \cup {c \in ArityCases : LET na == (c.n \div 2) % 8 np == c.n \div 96 IN na <= np + 2 /\ (c.n % 2 = 1 => na >= 2)} \cup
        {[fam |-> f, n |-> n, class |-> 0, held |-> -1] : f \in {"ident", "string", "ppnumber", "floatconst", "comment", "escstring"}, n \in {k \in TokLens : k >= 1}}
   \cup {[fam |-> f, n |-> n, class |-> 0, held |-> -1] : f \in {"macrobody", "macrochain", "macroargtoks", "callargs", "strconcat", "peeknl", "initlist", "params"}, n \in Counts}
